@@ -75,7 +75,7 @@ class Prop:
     def run_case(self, recipe):
         raise NotImplementedError
 
-    def enumerate(self, tier):
+    def enumerate(self, tier, shard=0, nshards=1):
         return None
 
     def sample_view(self, recipe):
@@ -245,8 +245,8 @@ class Runner:
         files = sorted(glob.glob(os.path.join(ROOT, 'replays', self.prop.id, '*.json')))
         self.replay_files(files)
 
-    def enumeration(self):
-        it = self.prop.enumerate(self.tier)
+    def enumeration(self, shard=0, nshards=1):
+        it = self.prop.enumerate(self.tier, shard, nshards)
         if it is None:
             return
         for recipe in it:
@@ -305,11 +305,11 @@ class Runner:
                 raise HarnessError('flaky case: %s' % e)
 
     # -- whole run ----------------------------------------------------------------------------
-    def run_single(self, n_examples=None, do_replays=True, do_enum=True):
+    def run_single(self, n_examples=None, do_replays=True, do_enum=True, shard=0, nshards=1):
         if do_replays:
             self.replay_tier()
         if do_enum:
-            self.enumeration()
+            self.enumeration(shard, nshards)
         if n_examples is None:
             n_examples = self.examples or (self.prop.quick_examples if self.tier == 'quick'
                                            else self.prop.thorough_examples)
@@ -362,9 +362,9 @@ def main_run(prop, tier, seed, examples=None, shard=None, out=None, jobs=None, r
 
     if shard is not None:           # worker of a thorough run
         r = Runner(prop, tier, seed, examples=examples, quiet=True)
-        r.run_single(do_replays=False, do_enum=False)
+        r.run_single(do_replays=False, do_enum=True, shard=shard, nshards=jobs or prop.shards)
         with open(out, 'w') as f:
-            json.dump({'stats': r.stats.as_dict(), 'violations': r.violations}, f)
+            json.dump({'stats': r.stats.as_dict(), 'violations': r.violations, 'exhaustive': r.stats.exhaustive}, f)
         return 1 if r.violations else 0
 
     r = Runner(prop, tier, seed, examples=examples)
@@ -374,16 +374,16 @@ def main_run(prop, tier, seed, examples=None, shard=None, out=None, jobs=None, r
     else:
         # thorough: replay + enumeration here, search split over shards in sub-processes
         r.replay_tier()
-        r.enumeration()
         stats, violations = r.stats, list(r.violations)
         n = jobs or prop.shards
         procs = []
+        all_exhaustive = True
         tmpd = os.path.join(ROOT, 'out', 'shards')
         os.makedirs(tmpd, exist_ok=True)
         for i in range(n):
             o = os.path.join(tmpd, '%s-%d-%d.json' % (prop.id, os.getpid(), i))
             cmd = [sys.executable, '-B', '-m', 'vf.cli', prop.id, '--tier', 'thorough', '--shard', str(i),
-                   '--out', o]
+                   '--out', o, '--jobs', str(n)]
             if examples:
                 cmd += ['--examples', str(examples)]
             env = dict(os.environ, VERIF_SEED=str(seed * 1000 + i + 1))
@@ -398,6 +398,7 @@ def main_run(prop, tier, seed, examples=None, shard=None, out=None, jobs=None, r
                 d = json.load(f)
             os.unlink(o)
             stats.merge_dict(d['stats'])
+            all_exhaustive = all_exhaustive and bool(d.get('exhaustive'))
             seen = {v['signature'] for v in violations}
             for v in d['violations']:
                 if v['signature'] not in seen:
@@ -405,6 +406,8 @@ def main_run(prop, tier, seed, examples=None, shard=None, out=None, jobs=None, r
                     violations.append(v)
                     print('VIOLATION property=%s replay=%s' % (prop.id, v['replay']))
                     print('  signature: %s' % v['signature'])
+    if tier != 'quick' and (jobs or prop.shards) > 1:
+        stats.exhaustive = all_exhaustive and stats.enumerated > 0
     wall = time.time() - t0
     # floors: a vacuous run must not look green; it is a harness error, never a violation
     floor_fail = []
